@@ -31,6 +31,10 @@ func main() {
 			fmt.Printf("fact-fail %s %s\n", fam.name, strings.ReplaceAll(msg, "\n", " "))
 			continue
 		}
+		if strings.HasPrefix(fam.name, "Src") { // a complete Lean file (translated source, see go2lean.go)
+			writeIfChanged(filepath.Join(*out, fam.name+".lean"), content)
+			continue
+		}
 		writeIfChanged(filepath.Join(*out, fam.name+".lean"), header+content+footer)
 	}
 }
